@@ -4,6 +4,9 @@
 // compared with the psABI placement: registers, memory arguments, %al, 16-byte stack alignment.
 #define CG_OWN_CALL_HOOK
 #include "cg_harness.h"
+#ifndef RETTY
+#define RETTY TI_INT
+#endif
 #include "psabi_call.h"
 #ifndef SIG
 #define SIG "iid"
@@ -55,7 +58,7 @@ void harness(void) {
   mk(&TSp, 8, 1, 0, 0, 0, &Mb[0]); mk(&TSq, 8, 1, 1, 0, 0, &Mb[1]); mk(&TSr, 16, 2, 0, 0, 0, &Mb[2]); mk(&TSs, 16, 2, 1, 1, 0, &Mb[4]);
   mk(&TSt, 16, 2, 0, 1, 0, &Mb[6]); mk(&TSu, 16, 2, 1, 0, 0, &Mb[8]); mk(&TSm, 24, 3, 0, 0, 0, &Mb[10]);
   TSn = (Type){TY_STRUCT, 20, 4}; for (int i = 0; i < 5; i++) { Mn[i] = (Member){0}; Mn[i].ty = &CGT[TI_INT]; Mn[i].offset = 4 * i; Mn[i].align = 4; Mn[i].next = i < 4 ? &Mn[i + 1] : 0; } TSn.members = Mn;
-  FT.return_ty = &CGT[TI_INT]; FT.is_variadic = 0;
+  FT.return_ty = &CGT[RETTY]; FT.is_variadic = 0;       /* the callee's return type: narrow results are normalised after the call */
   cg_node(&fnn, ND_NULL_EXPR, &CGT[TI_PTR]);
   IN(uint64_t, fnv); FNV = fnv;
   cg_child[0] = &fnn; cg_val[0] = fnv;
@@ -75,7 +78,7 @@ void harness(void) {
     }
     AV[i] = v; cg_child[1 + (i % 9)] = &A[i]; cg_val[1 + (i % 9)] = v;
   }
-  cg_node(&n, ND_FUNCALL, &CGT[TI_INT]); n.lhs = &fnn; n.func_ty = &FT; n.args = NA ? &A[0] : 0; cg_root = &n; cg_check_val = 0;
+  cg_node(&n, ND_FUNCALL, &CGT[RETTY]); n.lhs = &fnn; n.func_ty = &FT; n.args = NA ? &A[0] : 0; cg_root = &n; cg_check_val = 0;
   sp_at_entry = m.sp; m.call_seen = 0; cg_extra = A;
   (void)verif_val(0); (void)cg_holds(&CGT[TI_INT], 0); (void)cg_x87_delta(&CGT[TI_INT]);
   gen_expr(&n);
